@@ -191,20 +191,23 @@ fn compare_cells(xs: &mut State) -> Xresult1<Ordering> {
 }
 
 fn core_word_into_real(xs: &mut State) -> Xresult {
-    match xs.top_data()?.value() {
-        Cell::Real(_) => OK,
+    // the result is a fresh value in either case: it does not inherit the tags of the argument
+    let val = xs.pop_data()?;
+    match val.value() {
+        Cell::Real(r) => xs.push_data(Cell::from(*r)),
         _ => {
-            let a = xs.pop_data()?.to_xint()?;
+            let a = val.to_xint()?;
             xs.push_data(Cell::from(a as Xreal))
         }
     }
 }
 
 fn core_word_into_int(xs: &mut State) -> Xresult {
-    match xs.top_data()?.value() {
-        Cell::Int(_) => OK,
+    let val = xs.pop_data()?;
+    match val.value() {
+        Cell::Int(i) => xs.push_data(Cell::from(*i)),
         _ => {
-            let a = xs.pop_data()?.to_real()?;
+            let a = val.to_real()?;
             xs.push_data(Cell::from(a as Xint))
         }
     }
